@@ -21,6 +21,16 @@ from .report import Check
 
 def _apply(root: str, edits) -> Dict[str, str] | None:
     overlay: Dict[str, str] = {}
+    if edits == "unparse-all":
+        import ast
+        base = os.path.join(root, "src", "cm_colors")
+        for dp, _dn, fns in os.walk(base):
+            for fn in fns:
+                if fn.endswith(".py"):
+                    pth = os.path.join(dp, fn)
+                    with open(pth, encoding="utf-8") as fh:
+                        overlay[os.path.relpath(pth, root)] = ast.unparse(ast.parse(fh.read()))
+        return overlay
     for (rel, old, new) in edits:
         src = overlay.get(rel)
         if src is None:
@@ -42,7 +52,11 @@ def _one(args):
         project = Project(root, overlay)
         mod = importlib.import_module(f"checks.{pid}")
         chk = Check(pid, "quick", quiet=True)
-        mod.run(project, chk)
+        try:
+            mod.run(project, chk)
+        except AnalysisError:
+            if not chk.split_findings()[0]:
+                raise
         new, _ = chk.split_findings()
         if new:
             return (variant["name"], "reported", [f"{f.loc} {f.function} [{f.rule}] {f.message}" for f in new[:3]])
@@ -63,6 +77,7 @@ def load_corpus(pid: str):
 
 def sensitivity(pid: str, root: str, chk: Check) -> dict:
     mutants, benign = load_corpus(pid)
+    benign = benign + [{"name": "whole package re-printed (comments dropped, layout and quoting normalised, line numbers changed)", "edits": "unparse-all"}]
     jobs = [(pid, root, v) for v in mutants + benign]
     results = []
     if jobs:
